@@ -40,6 +40,8 @@ PROPS = {
         "jobs": [
             {"scen": "tunnel", "sets": {"mode": "clean"}, "quick": 1500, "thorough": 50000},
             {"scen": "tunnel", "sets": {"mode": "faulty"}, "quick": 1500, "thorough": 50000},
+            {"scen": "sessions", "sets": {}, "quick": 800, "thorough": 40000},
+            {"scen": "tunnel", "sets": {"mode": "redeliver"}, "quick": 800, "thorough": 40000},
         ],
         "expect_probes": ["c14.answers", "c14.held2", "srv.both_slots_held", "srv.id2_remembered"],
     },
@@ -51,6 +53,7 @@ PROPS = {
                 "server socket in a run whose canary completed its handshake; distinct = distinct run fingerprints",
         "jobs": [
             {"scen": "hostile_srv", "sets": {}, "quick": 2000, "thorough": 150000},
+            {"scen": "sessions", "sets": {}, "quick": 700, "thorough": 40000},
         ],
         "own_viol": ["C05"],
         "expect_probes": ["c05.hostile_delivered", "c05.raw_frames", "c05.cmd.v", "c05.cmd.l", "c05.cmd.i", "c05.cmd.z", "c05.cmd.s", "c05.cmd.o", "c05.cmd.y", "c05.cmd.r", "c05.cmd.n", "c05.cmd.p", "c05.cmd.d"],
